@@ -1,7 +1,7 @@
 (* Correspondence checker for C16, evaluated by vm_compute on generated case
    files with CPython's character classes (Gen/C16_Gen.v, regenerated from the
    running interpreter).  Nothing here is a theorem. *)
-From Boltons Require Import Lib.Prelude Lib.C16_Text Spec.C16_Spec Model.C16_Model Gen.C16_Gen.
+From Boltons Require Import Lib.Prelude Lib.C16_Text Spec.C16_Spec Spec.C16_Re Model.C16_Model Gen.C16_Gen.
 Open Scope N_scope.
 
 Definition P := py_cc.
@@ -34,7 +34,10 @@ Inductive c16_case :=
 (* a live exception: the interpreter's view (extract_tb + type + str(value)), the
    interpreter's own formatted text (marker lines removed, final newline removed)
    and boltons' view *)
-| CaseEI (fs : list live_frame) (e : live_exc) (interp : str) (o : ei_obs).
+| CaseEI (fs : list live_frame) (e : live_exc) (interp : str) (o : ei_obs)
+(* one of the three compiled patterns (0 = _frame_re, 1 = _se_frame_re, 2 = _underline_re)
+   applied with .match to a string: None, or the list of its groups *)
+| CaseRe (which : N) (s : str) (groups : option (list str)).
 
 Definition rtb_eqb := res_eqb tb_eqb.
 Definition rstr_eqb := res_eqb str_eqb.
@@ -134,6 +137,30 @@ Definition ei_verdict (fs : list live_frame) (e : live_exc) (interp : str) (o : 
   let known := special && spec_valid && ei_clauses fs e o T' (plain_text T') in
   (agree, holds, known).
 
+(* ---- the patterns ---------------------------------------------------------------------------- *)
+Definition groups_eqb := option_eqb (list_eqb str_eqb).
+
+Definition model_re (which : N) (s : str) : option (list str) :=
+  match which with
+  | 0 => match frame_re P s with
+         | Some (p, n, Some g) => Some [p; n; g]
+         | Some (p, n, None) => Some [p; n]
+         | None => None
+         end
+  | 1 => match se_frame_re P s with
+         | Some (p, n, _) => Some [p; n]
+         | None => None
+         end
+  | _ => if underline_re s then Some [] else None
+  end.
+
+Definition spec_re (which : N) (s : str) : option (list str) :=
+  match which with
+  | 0 => re_match P gen_frame_items gen_frame_groups s
+  | 1 => re_match P gen_se_items gen_se_groups s
+  | _ => re_match P gen_underline_items gen_underline_groups s
+  end.
+
 Definition c16_verdict (c : c16_case) : verdict :=
   match c with
   | CaseRT T ms text parsed printed => rt_verdict T ms text parsed printed
@@ -141,12 +168,17 @@ Definition c16_verdict (c : c16_case) : verdict :=
       let '(mp, ms') := model_parse_print text in
       (rtb_eqb mp parsed && rstr_eqb ms' printed, true, false)
   | CaseEI fs e interp o => ei_verdict fs e interp o
+  | CaseRe which s groups =>
+      (* agree: the scanner's matcher of the model; holds: the reference semantics of re on the
+         pattern regenerated from the source (validation of Spec.C16_Re against the real module) *)
+      (groups_eqb (model_re which s) groups, groups_eqb (spec_re which s) groups, false)
   end.
 
 (* what the model computes, for replay files *)
 Inductive c16_expl :=
 | ExplRT (model_parsed : res tb) (model_printed : res str) (spec_text : str) (wf_T : bool) (input_ok : bool)
-| ExplEI (model : ei_obs) (spec_text : str) (spec_tb : tb).
+| ExplEI (model : ei_obs) (spec_text : str) (spec_tb : tb)
+| ExplRe (model_groups spec_groups : option (list str)).
 
 Definition c16_explain (c : c16_case) : c16_expl :=
   match c with
@@ -155,4 +187,5 @@ Definition c16_explain (c : c16_case) : c16_expl :=
       ExplRT a b (std_text T) (wf P T && markers_ok ms) (rt_input_ok T ms text)
   | CaseRaw text _ _ => let '(a, b) := model_parse_print text in ExplRT a b [] false true
   | CaseEI fs e _ _ => ExplEI (model_ei fs e) (std_text (std_tb P fs e)) (std_tb P fs e)
+  | CaseRe which s _ => ExplRe (model_re which s) (spec_re which s)
   end.
